@@ -20,8 +20,8 @@ package utils
 import (
 	"fmt"
 	"math"
-	"regexp"
 	"sort"
+	"strings"
 
 	"github.com/prometheus/prometheus/promql/parser"
 	"github.com/siglens/siglens/pkg/segment/structs"
@@ -208,27 +208,20 @@ func ExtractMatchingLabelSet(groupIDStr string, matchingLabels []string, include
 
 	labelKeysToValuesMap := make(map[string]string)
 
-	re := regexp.MustCompile(`(.*)\{(.*)`)
-
-	labelSetStr := ""
-	match := re.FindStringSubmatch(groupIDStr)
-	if len(match) == 3 {
-		labelSetStr = match[2]
-	} else {
+	// The group id is "metricName{key1:value1,key2:value2,...". Label values are taken
+	// whole: a value such as "web-01" or "10.0.0.1" must not be cut at its first
+	// non-word character.
+	_, labelSetStr, found := strings.Cut(groupIDStr, "{")
+	if !found {
 		return groupIDStr
 	}
 
-	re = regexp.MustCompile(`\s*([\w\s]+):\s*([\w\s]+)`)
-
-	matches := re.FindAllStringSubmatch(labelSetStr, -1)
-	for _, match := range matches {
-		if len(match) == 3 {
-			labelKey := match[1]
-			labelVal := match[2]
-			labelKeysToValuesMap[labelKey] = labelVal
-		} else {
-			log.Errorf("ExtractMatchingLabelSet: can not correctly extract tags from labelStr: %v", labelSetStr)
+	for _, keyValuePair := range strings.Split(labelSetStr, ",") {
+		labelKey, labelVal, found := strings.Cut(keyValuePair, ":")
+		if !found {
+			continue
 		}
+		labelKeysToValuesMap[strings.TrimSpace(labelKey)] = strings.TrimSpace(labelVal)
 	}
 
 	matchingLabelValStr := ""
